@@ -23,16 +23,16 @@ CHECKS = {
    design="6/C02", note=NOTE),
  "C03": dict(
    cat="proof",
-   text="Theorems (Props/C03.v, closed): for every archive state, Verify reports 'no repair needed' only if every protected file is present with the recorded length, MD5 and 16k-MD5; usable+unusable = number of protected slices; the usable recovery-block count = number of distinct exponents among the loaded intact recovery packets; possible <=> unusable <= usable blocks; Verify never panics (any state, any fault schedule). Per-slice soundness and completeness are the scan theorems of Props/C16.v. "
+   text="Theorems (Props/C03.v, closed): for every archive state, Verify reports 'no repair needed' only if every protected file is present with the recorded length, MD5 and 16k-MD5; usable+unusable = number of protected slices; the usable recovery-block count = number of distinct exponents among the loaded intact recovery packets; possible <=> unusable <= usable blocks; Verify never panics (any state, any fault schedule); COMPLETE: if every protected file is present with content consistent with the archive (length, hashes, slice checksum list; distinct ids) Verify counts no unusable slice, no misplaced file and needs no repair - for every archive, slice size and content incl. duplicate slices. Per-slice soundness is the scan theorem of Props/C16.v. "
         "Tied to the code on ~1100 states incl., for every file of every set, the patterns that leave every slice findable while the file is wrong (front insertion, appended garbage, trailing zeros lost/added, swapped files) and CRC-preserving corruption (only MD5 distinguishes); independent content-search oracles for soundness/completeness. The pinned tree violated clause (a): fixed in /repo (see known_findings.json).",
    technique="Rocq proof: flag/shard-table invariants of the loading fold + scan soundness/completeness; differential correspondence check with separating damage patterns",
    design="6/C03", note=NOTE),
  "C05": dict(
    cat="proof",
-   text="The property predicate is an executable specification-side reader written in Gallina from the PAR 2.0 text (Model/Par2Spec.v valid_set: framing, lengths, packet MD5s, set id, ascending file ids, file/16k hashes, slice MD5/CRC32 incl. padding, creator packet, recovery block e = sum_i slice_i*c_i^e with the specification's constants and reduced carry-less products - never gopar's tables -, exponents 0..n-1 exactly once), extracted and run on the files gopar's Create wrote. Theorems (Props/C05.v): the writer model's framing round trip, padding, volume layout covering every block exactly once for every n, sorted permutation of ids, and each recovery block of the writer model = the specification's sum (see file; what is not yet proved is named there). "
+   text="The property predicate is an executable specification-side reader written in Gallina from the PAR 2.0 text (Model/Par2Spec.v valid_set: framing, lengths, packet MD5s, set id, ascending file ids, file/16k hashes, slice MD5/CRC32 incl. padding, creator packet, recovery block e = sum_i slice_i*c_i^e with the specification's constants and reduced carry-less products - never gopar's tables -, exponents 0..n-1 exactly once), extracted and run on the files gopar's Create wrote. Theorems (Props/C05.v): the writer model's framing round trip, padding, volume layout covering every block exactly once for every n, sorted permutation of ids, each recovery block of the writer model = the specification's sum, and END TO END: for every input set the writer accepts, Verify on the written directory succeeds, needs no repair and finds all n blocks (reader and writer agree on framing, bodies, ids, hashes, checksums, layout). Not a theorem: that the independent validator valid_set accepts the model writer for all inputs (evaluated per generated set). "
         "Tied to the code: ~30 sets per run (sub-directory names, name lengths not divisible by 4, sizes around the slice size and 16384, block counts 1..300 incl. powers of two, >256 slices, 300-byte names, 12 files, in memory and on disk): implementation output must be accepted by valid_set and equal the model writer byte for byte; inputs Create must refuse.",
    technique="Rocq: executable specification validator (extracted) as oracle + writer-model theorems; byte-exact differential correspondence check",
-   design="6/C05", note=NOTE + "valid_set accepting the MODEL writer's output for all inputs is established by running, not yet by a theorem."),
+   design="6/C05", note=NOTE),
  "C16": dict(
    cat="proof",
    text="Theorems (Props/C16.v, closed): the rolling CRC-32 update of crc32Window is exact for EVERY window size >= 4 and every content (update(crc(a[0:n]),a[0],a[n]) = crc(a[1:n+1]), incl. the table construction from 8 base CRCs and the parity correction); window size < 4 panics; the scan that rolls the checksum equals the scan that recomputes it; FOUND-IF-NOT-SHADOWED: any position whose zero-padded window matches a registered checksum pair, with no matching window starting within S bytes before it, is a hit credited to every registered location; soundness of hits; an intact file yields hits at 0,S,2S,.. and no miss. "
